@@ -31,13 +31,21 @@ Definition term_ok (t : tterm) : bool :=
   | TLit _ None (Some d) => nonempty_s d && iri_ok d
   | TLit _ (Some _) (Some _) => false
   end.
-Definition po_ok (po : str * list tterm) : bool :=
-  iri_ok (fst po) && negb (match snd po with [] => true | _ => false end) && forallb term_ok (snd po).
+Definition po_okg (okp : tterm -> bool) (po : str * list tterm) : bool :=
+  iri_ok (fst po) && negb (match snd po with [] => true | _ => false end) && forallb okp (snd po).
+Definition po_ok := po_okg term_ok.
+(* an object of a top-level statement: a nested node's own statements are one level deep *)
+Definition okp_outer (n : nesttab) (t : tterm) : bool :=
+  match t with
+  | TBn l => match nlookup n l with Some ps => forallb po_ok ps | None => term_ok t end
+  | _ => term_ok t
+  end.
 Definition subj_ok (t : tterm) : bool := match t with TLit _ _ _ => false | _ => term_ok t end.
-Definition sp_ok (sp : tterm * list (str * list tterm)) : bool :=
-  subj_ok (fst sp) && negb (match snd sp with [] => true | _ => false end) && forallb po_ok (snd sp).
-Definition plan_ok (pl : plan) : bool := forallb sp_ok pl.
-Definition ts_wf (c : ts_case) : bool := ns_ok (ts_ns c) && q_ok (ts_ns c) (ts_q c) && plan_ok (ts_plan c).
+Definition sp_ok (n : nesttab) (sp : tterm * list (str * list tterm)) : bool :=
+  subj_ok (fst sp) && negb (match snd sp with [] => true | _ => false end) && forallb (po_okg (okp_outer n)) (snd sp).
+Definition plan_ok (n : nesttab) (pl : plan) : bool := forallb (sp_ok n) pl.
+Definition ts_wf (c : ts_case) : bool :=
+  ns_ok (ts_ns c) && q_ok (ts_ns c) (ts_q c) && plan_ok (ts_nest c) (ts_plan c).
 
 (* ------------------------------------------------------------ the token image of the writer *)
 Definition s_semi : str := [59].
@@ -66,26 +74,38 @@ Definition tok_term (q : qtab) (t : tterm) : list token :=
     | None => tok_quoted q lex lang dt
     end
   end.
-Definition tobj_more (q : qtab) (x : tterm) : list token := KComma :: tok_term q x.
-Definition toks_objs (q : qtab) (os : list tterm) : list token :=
-  match os with
-  | [] => []
-  | o :: r => tok_term q o ++ flat_map (tobj_more q) r
+Section TokLayer.
+  Variable q : qtab.
+  Variable tt : tterm -> list token.
+  Definition tobj_more (x : tterm) : list token := KComma :: tt x.
+  Definition toks_objs (os : list tterm) : list token :=
+    match os with
+    | [] => []
+    | o :: r => tt o ++ flat_map tobj_more r
+    end.
+  Definition tpred_more (po : str * list tterm) : list token :=
+    KWord s_semi :: tok_iri q true (fst po) :: toks_objs (snd po).
+  Definition toks_preds (ps : list (str * list tterm)) : list token :=
+    match ps with
+    | [] => []
+    | (p, os) :: r => tok_iri q true p :: toks_objs os ++ flat_map tpred_more r
+    end.
+End TokLayer.
+Definition tt_outer (q : qtab) (n : nesttab) (t : tterm) : list token :=
+  match t with
+  | TBn l => match nlookup n l with
+             | Some ps => KWord s_open :: toks_preds q (tok_term q) ps ++ [KWord s_close]
+             | None => tok_term q t
+             end
+  | _ => tok_term q t
   end.
-Definition tpred_more (q : qtab) (po : str * list tterm) : list token :=
-  KWord s_semi :: tok_iri q true (fst po) :: toks_objs q (snd po).
-Definition toks_preds (q : qtab) (ps : list (str * list tterm)) : list token :=
-  match ps with
-  | [] => []
-  | (p, os) :: r => tok_iri q true p :: toks_objs q os ++ flat_map (tpred_more q) r
-  end.
-Definition toks_stmt (q : qtab) (sp : tterm * list (str * list tterm)) : list token :=
-  tok_term q (fst sp) ++ toks_preds q (snd sp) ++ [KWord s_dot].
+Definition toks_stmt (q : qtab) (n : nesttab) (sp : tterm * list (str * list tterm)) : list token :=
+  tok_term q (fst sp) ++ toks_preds q (tt_outer q n) (snd sp) ++ [KWord s_dot].
 Definition tprefix_line (pn : str * str) : list token :=
   [KWord s_prefix_word; KWord (fst pn ++ [58]); KIri (snd pn); KWord s_dot].
 Definition toks_header (ns : nstab) : list token := flat_map tprefix_line ns.
-Definition toks_doc (ns : nstab) (q : qtab) (pl : plan) : list token :=
-  toks_header ns ++ flat_map (toks_stmt q) pl.
+Definition toks_doc (ns : nstab) (q : qtab) (n : nesttab) (pl : plan) : list token :=
+  toks_header ns ++ flat_map (toks_stmt q n) pl.
 
 (* ------------------------------------------------------------ (A) lexing *)
 (* what follows a term in the writer's text: a blank or a comma *)
@@ -330,41 +350,10 @@ Qed.
 Lemma lexs_blank : forall z, lexs 0 (32 :: z) = lexs 0 z.
 Proof. intros. now apply lexs_ws. Qed.
 
-Lemma lexs_sp4 : forall z, lexs 0 (sp4 ++ z) = lexs 0 z.
-Proof. intros. unfold sp4. cbn [app]. now rewrite !lexs_blank. Qed.
-
-Lemma lexs_sp8 : forall z, lexs 0 (sp8 ++ z) = lexs 0 z.
-Proof. intros. unfold sp8. rewrite <- app_assoc. now rewrite !lexs_sp4. Qed.
-
-(* the tail of an object list *)
-Lemma obj_more_dl : forall q r z, dl z = true -> dl (flat_map (obj_more q) r ++ z) = true.
-Proof. intros q [|o r] z H; [exact H|reflexivity]. Qed.
-Lemma pred_more_dl : forall q r z, dl z = true -> dl (flat_map (pred_more q) r ++ z) = true.
-Proof. intros q [|o r] z H; [exact H|reflexivity]. Qed.
-
-Lemma lex_objs_tail : forall ns q os z, q_ok ns q = true -> forallb term_ok os = true -> dl z = true ->
-  lexs 0 (flat_map (obj_more q) os ++ z) = flat_map (tobj_more q) os ++ lexs 0 z.
-Proof.
-  intros ns q os z Hq. induction os as [|o r IH]; intros Hok Hz; [reflexivity|].
-  simpl in Hok. apply andb_true_iff in Hok as [Ho Hr].
-  cbn [flat_map]. unfold obj_more at 1, tobj_more at 1. rewrite <- ?app_assoc. cbn [app].
-  rewrite lex_comma. rewrite lexs_ws by reflexivity. rewrite lexs_sp8.
-  rewrite (lex_label_term ns) by (try assumption; now apply obj_more_dl). rewrite IH by assumption.
-  rewrite <- ?app_assoc; reflexivity.
-Qed.
-
-Lemma lex_objs : forall ns q os z, q_ok ns q = true -> forallb term_ok os = true -> dl z = true ->
-  lexs 0 (write_objs q os ++ z) = toks_objs q os ++ lexs 0 z.
-Proof.
-  intros ns q [|o r] z Hq Hok Hz; [reflexivity|].
-  simpl in Hok. apply andb_true_iff in Hok as [Ho Hr].
-  cbn [write_objs toks_objs]. rewrite <- ?app_assoc. cbn [app]. rewrite lexs_blank.
-  rewrite (lex_label_term ns) by (try assumption; now apply obj_more_dl).
-  rewrite (lex_objs_tail ns) by assumption. rewrite <- ?app_assoc; reflexivity.
-Qed.
-
-Lemma write_objs_dl : forall q os z, os <> [] -> dl (write_objs q os ++ z) = true.
-Proof. intros q [|o r] z H; [congruence|reflexivity]. Qed.
+Lemma lexs_rep : forall k z, lexs 0 (repeat 32 k ++ z) = lexs 0 z.
+Proof. induction k as [|k IH]; intros z; [reflexivity|]. cbn [repeat app]. now rewrite lexs_blank. Qed.
+Lemma lexs_ind : forall n z, lexs 0 (ind n ++ z) = lexs 0 z.
+Proof. intros. unfold ind. apply lexs_rep. Qed.
 
 Lemma lex_semi : forall z, lexs 0 (59 :: 10 :: z) = KWord s_semi :: lexs 0 z.
 Proof.
@@ -379,54 +368,115 @@ Proof.
   cbn [app]. now rewrite lexs_ws by reflexivity.
 Qed.
 
-Lemma lex_preds_tail : forall ns q ps z, q_ok ns q = true -> forallb po_ok ps = true -> dl z = true ->
-  lexs 0 (flat_map (pred_more q) ps ++ z) = flat_map (tpred_more q) ps ++ lexs 0 z.
+(* one layer of object / predicate lists, for any way [wt] of writing an object whose lexing is known *)
+Section LexLayer.
+  Variables (ns : nstab) (q : qtab).
+  Variable wt : nat -> tterm -> str.
+  Variable tt : tterm -> list token.
+  Variable okp : tterm -> bool.
+  Hypothesis Hq : q_ok ns q = true.
+  Hypothesis Hwt : forall d t z, okp t = true -> dl z = true -> lexs 0 (wt d t ++ z) = tt t ++ lexs 0 z.
+
+
+  Lemma obj_more_dl : forall d r z, dl z = true -> dl (flat_map (obj_more wt d) r ++ z) = true.
+  Proof. intros d [|o r] z H; [exact H|reflexivity]. Qed.
+  Lemma pred_more_dl : forall d r z, dl z = true -> dl (flat_map (pred_more q wt d) r ++ z) = true.
+  Proof. intros d [|o r] z H; [exact H|reflexivity]. Qed.
+
+  Lemma lex_objs_tail : forall d os z, forallb okp os = true -> dl z = true ->
+    lexs 0 (flat_map (obj_more wt d) os ++ z) = flat_map (tobj_more tt) os ++ lexs 0 z.
+  Proof.
+    intros d os z. induction os as [|o r IH]; intros Hok Hz; [reflexivity|].
+    simpl in Hok. apply andb_true_iff in Hok as [Ho Hr].
+    cbn [flat_map]. unfold obj_more at 1, tobj_more at 1. rewrite <- ?app_assoc. cbn [app].
+    rewrite lex_comma. rewrite lexs_ws by reflexivity. rewrite lexs_ind.
+    rewrite Hwt by (try assumption; now apply obj_more_dl). rewrite IH by assumption.
+    rewrite <- ?app_assoc; reflexivity.
+  Qed.
+
+  Lemma lex_objs : forall d os z, forallb okp os = true -> dl z = true ->
+    lexs 0 (write_objs wt d os ++ z) = toks_objs tt os ++ lexs 0 z.
+  Proof.
+    intros d [|o r] z Hok Hz; [reflexivity|].
+    simpl in Hok. apply andb_true_iff in Hok as [Ho Hr].
+    cbn [write_objs toks_objs]. rewrite <- ?app_assoc. cbn [app]. rewrite lexs_blank.
+    rewrite Hwt by (try assumption; now apply obj_more_dl).
+    rewrite lex_objs_tail by assumption. rewrite <- ?app_assoc; reflexivity.
+  Qed.
+
+  Lemma write_objs_dl : forall d os z, os <> [] -> dl (write_objs wt d os ++ z) = true.
+  Proof. intros d [|o r] z H; [congruence|reflexivity]. Qed.
+
+  Lemma lex_preds_tail : forall d ps z, forallb (po_okg okp) ps = true -> dl z = true ->
+    lexs 0 (flat_map (pred_more q wt d) ps ++ z) = flat_map (tpred_more q tt) ps ++ lexs 0 z.
+  Proof.
+    intros d ps z. induction ps as [|[p os] r IH]; intros Hok Hz; [reflexivity|].
+    simpl in Hok. apply andb_true_iff in Hok as [Hpo Hr].
+    unfold po_okg in Hpo. cbn [fst snd] in Hpo. apply andb_true_iff in Hpo as [Hpo Hts]. apply andb_true_iff in Hpo as [Hp Hne].
+    assert (Hos : os <> []) by (destruct os; [discriminate|congruence]).
+    cbn [flat_map]. unfold pred_more at 1, tpred_more at 1. cbn [fst snd]. rewrite <- ?app_assoc. cbn [app].
+    rewrite lexs_blank, lex_semi, lexs_ind.
+    rewrite (lex_label_iri ns) by (try assumption; now apply write_objs_dl).
+    rewrite lex_objs by (try assumption; now apply pred_more_dl). rewrite IH by assumption.
+    rewrite <- ?app_assoc; reflexivity.
+  Qed.
+
+  Lemma lex_preds : forall d ps z, forallb (po_okg okp) ps = true -> dl z = true ->
+    lexs 0 (write_preds q wt d ps ++ z) = toks_preds q tt ps ++ lexs 0 z.
+  Proof.
+    intros d [|[p os] r] z Hok Hz; [reflexivity|].
+    simpl in Hok. apply andb_true_iff in Hok as [Hpo Hr].
+    unfold po_okg in Hpo. cbn [fst snd] in Hpo. apply andb_true_iff in Hpo as [Hpo Hts]. apply andb_true_iff in Hpo as [Hp Hne'].
+    assert (Hos : os <> []) by (destruct os; [discriminate|congruence]).
+    cbn [write_preds toks_preds]. rewrite <- ?app_assoc. cbn [app]. rewrite lexs_blank.
+    rewrite (lex_label_iri ns) by (try assumption; now apply write_objs_dl).
+    rewrite lex_objs by (try assumption; now apply pred_more_dl). rewrite lex_preds_tail by assumption.
+    rewrite <- ?app_assoc; reflexivity.
+  Qed.
+
+  Lemma write_preds_dl : forall d ps z, ps <> [] -> dl (write_preds q wt d ps ++ z) = true.
+  Proof. intros d [|[p os] r] z H; [congruence|reflexivity]. Qed.
+End LexLayer.
+
+(* the two layers *)
+Lemma lex_wt_inner : forall ns q, q_ok ns q = true -> forall d t z, term_ok t = true -> dl z = true ->
+  lexs 0 (wt_inner q d t ++ z) = tok_term q t ++ lexs 0 z.
+Proof. intros ns q Hq d t z Ht Hz. unfold wt_inner. now apply (lex_label_term ns). Qed.
+
+Lemma lex_wt_outer : forall ns q n, q_ok ns q = true -> forall d t z, okp_outer n t = true -> dl z = true ->
+  lexs 0 (wt_outer q n d t ++ z) = tt_outer q n t ++ lexs 0 z.
 Proof.
-  intros ns q ps z Hq. induction ps as [|[p os] r IH]; intros Hok Hz; [reflexivity|].
-  simpl in Hok. apply andb_true_iff in Hok as [Hpo Hr].
-  unfold po_ok in Hpo. cbn [fst snd] in Hpo. apply andb_true_iff in Hpo as [Hpo Hts]. apply andb_true_iff in Hpo as [Hp Hne].
-  assert (Hos : os <> []) by (destruct os; [discriminate|congruence]).
-  cbn [flat_map]. unfold pred_more at 1, tpred_more at 1. cbn [fst snd]. rewrite <- ?app_assoc. cbn [app].
-  rewrite lexs_blank, lex_semi, lexs_sp4.
-  rewrite (lex_label_iri ns) by (try assumption; now apply write_objs_dl).
-  rewrite (lex_objs ns) by (try assumption; now apply pred_more_dl). rewrite IH by assumption.
-  rewrite <- ?app_assoc; reflexivity.
+  intros ns q n Hq d t z Ht Hz. unfold wt_outer, tt_outer, okp_outer in *.
+  destruct t as [u|l|lex lang dt]; try (now apply (lex_label_term ns)).
+  destruct (nlookup n l) as [ps|]; [|now apply (lex_label_term ns)].
+  rewrite <- ?app_assoc.
+  assert (Hd : dl (write_preds q (wt_inner q) (S d) ps ++ [32; 93] ++ z) = true).
+  { destruct ps as [|[p os] r]; reflexivity. }
+  rewrite lex_word by (try exact Hd; reflexivity).
+  rewrite (lex_preds ns q (wt_inner q) (tok_term q) term_ok Hq (lex_wt_inner ns q Hq)) by (try exact Ht; reflexivity).
+  cbn [app]. rewrite lexs_blank.
+  change (93 :: z) with ([93] ++ z). rewrite lex_word by (try exact Hz; reflexivity).
+  cbn [app]. rewrite <- ?app_assoc. reflexivity.
 Qed.
 
-Lemma lex_preds : forall ns q ps z, q_ok ns q = true -> forallb po_ok ps = true -> ps <> [] -> dl z = true ->
-  lexs 0 (write_preds q ps ++ z) = toks_preds q ps ++ lexs 0 z.
+Lemma lex_stmt : forall ns q n sp z, q_ok ns q = true -> sp_ok n sp = true ->
+  lexs 0 (write_stmt q n sp ++ z) = toks_stmt q n sp ++ lexs 0 z.
 Proof.
-  intros ns q [|[p os] r] z Hq Hok Hne Hz; [congruence|].
-  simpl in Hok. apply andb_true_iff in Hok as [Hpo Hr].
-  unfold po_ok in Hpo. cbn [fst snd] in Hpo. apply andb_true_iff in Hpo as [Hpo Hts]. apply andb_true_iff in Hpo as [Hp Hne'].
-  assert (Hos : os <> []) by (destruct os; [discriminate|congruence]).
-  cbn [write_preds toks_preds]. rewrite <- ?app_assoc. cbn [app]. rewrite lexs_blank.
-  rewrite (lex_label_iri ns) by (try assumption; now apply write_objs_dl).
-  rewrite (lex_objs ns) by (try assumption; now apply pred_more_dl). rewrite (lex_preds_tail ns) by assumption.
-  rewrite <- ?app_assoc; reflexivity.
-Qed.
-
-Lemma write_preds_dl : forall q ps z, ps <> [] -> dl (write_preds q ps ++ z) = true.
-Proof. intros q [|[p os] r] z H; [congruence|reflexivity]. Qed.
-
-Lemma lex_stmt : forall ns q sp z, q_ok ns q = true -> sp_ok sp = true ->
-  lexs 0 (write_stmt q sp ++ z) = toks_stmt q sp ++ lexs 0 z.
-Proof.
-  intros ns q [s ps] z Hq Hok. unfold sp_ok in Hok. cbn [fst snd] in Hok.
+  intros ns q n [s ps] z Hq Hok. unfold sp_ok in Hok. cbn [fst snd] in Hok.
   apply andb_true_iff in Hok as [Hok Hps]. apply andb_true_iff in Hok as [Hs Hne].
   assert (Hps' : ps <> []) by (destruct ps; [discriminate|congruence]).
   assert (Hst : term_ok s = true) by (destruct s; [exact Hs|exact Hs|discriminate]).
   unfold write_stmt, toks_stmt. cbn [fst snd]. rewrite <- ?app_assoc. cbn [app].
   rewrite lexs_ws by reflexivity.
   rewrite (lex_label_term ns) by (try assumption; now apply write_preds_dl).
-  rewrite (lex_preds ns) by (try assumption; reflexivity).
+  rewrite (lex_preds ns q (wt_outer q n) (tt_outer q n) (okp_outer n) Hq (lex_wt_outer ns q n Hq)) by (try assumption; reflexivity).
   rewrite lexs_blank, lex_dot. cbn [app]. rewrite <- ?app_assoc; reflexivity.
 Qed.
 
-Lemma lex_stmts : forall ns q pl z, q_ok ns q = true -> plan_ok pl = true ->
-  lexs 0 (flat_map (write_stmt q) pl ++ z) = flat_map (toks_stmt q) pl ++ lexs 0 z.
+Lemma lex_stmts : forall ns q n pl z, q_ok ns q = true -> plan_ok n pl = true ->
+  lexs 0 (flat_map (write_stmt q n) pl ++ z) = flat_map (toks_stmt q n) pl ++ lexs 0 z.
 Proof.
-  intros ns q pl z Hq. induction pl as [|sp r IH]; intros Hok; [reflexivity|].
+  intros ns q n pl z Hq. induction pl as [|sp r IH]; intros Hok; [reflexivity|].
   simpl in Hok. apply andb_true_iff in Hok as [H1 H2].
   cbn [flat_map]. rewrite <- ?app_assoc. rewrite (lex_stmt ns) by assumption. now rewrite IH.
 Qed.
@@ -450,14 +500,14 @@ Proof.
   rewrite lexs_blank. rewrite lex_iri by exact Hn. rewrite lexs_blank, lex_dot. rewrite (IH z Hr). reflexivity.
 Qed.
 
-Theorem lex_doc : forall ns q pl, ns_ok ns = true -> q_ok ns q = true -> plan_ok pl = true ->
-  lexs 0 (write_doc ns q pl) = toks_doc ns q pl.
+Theorem lex_doc : forall ns q n pl, ns_ok ns = true -> q_ok ns q = true -> plan_ok n pl = true ->
+  lexs 0 (write_doc ns q n pl) = toks_doc ns q n pl.
 Proof.
-  intros ns q pl H1 H2 H3. unfold write_doc, toks_doc.
+  intros ns q n pl H1 H2 H3. unfold write_doc, toks_doc.
   rewrite lex_header by exact H1. rewrite (lex_stmts ns) by assumption. cbn [lexs]. now rewrite app_nil_r.
 Qed.
 
-(* ------------------------------------------------------------ (B) the statement machine on the token image *)
+(* ------------------------------------------------------------ (B) the state machine on the token image *)
 Lemma mem_app_N : forall c a b, mem c (a ++ b) = mem c a || mem c b.
 Proof. intros. unfold mem. apply existsb_app. Qed.
 
@@ -484,7 +534,8 @@ Qed.
 Definition names (env : nstab) (tok : token) (u : str) : Prop :=
   tok = KIri u \/
   exists w, tok = KWord w /\ word_iri env w = Some u /\ str_eqb w s_prefix_word = false /\ str_eqb w s_a = false /\
-            is_int_lex w = false /\ (str_eqb w s_true || str_eqb w s_false) = false /\ bn_word w = None.
+            is_int_lex w = false /\ (str_eqb w s_true || str_eqb w s_false) = false /\ bn_word w = None /\
+            str_eqb w s_open = false /\ str_eqb w s_close = false.
 
 Lemma pfx_no_colon : forall p, pfx_ok p = true -> forallb (fun c => negb (c =? 58)) p = true.
 Proof.
@@ -519,50 +570,48 @@ Proof.
   - cbn [andb]. now apply tok_name_names.
 Qed.
 
-Lemma run_subj : forall env tok u T acc, names env tok u ->
-  run env RSubj (tok :: T) acc = run env (RPred (TIri u)) T acc.
+Lemma run_subj : forall env sup tok u T acc, names env tok u ->
+  run env sup RSubj (tok :: T) acc = run env sup (RPred None (TIri u)) T acc.
 Proof.
-  intros env tok u T acc [->|(w & -> & Hw & H1 & _ & _ & _ & Hb)]; [reflexivity|]. cbn [run]. now rewrite Hb, H1, Hw.
+  intros env sup tok u T acc [->|(w & -> & Hw & H1 & _ & _ & _ & Hb & _)]; [reflexivity|]. cbn [run]. now rewrite Hb, H1, Hw.
 Qed.
 
-Lemma run_pred : forall ns q s p T acc, q_ok ns q = true ->
-  run (rev ns) (RPred s) (tok_iri q true p :: T) acc = run (rev ns) (RObj s p) T acc.
+Lemma run_pred : forall ns q sup f s p T acc, q_ok ns q = true ->
+  run (rev ns) sup (RPred f s) (tok_iri q true p :: T) acc = run (rev ns) sup (RObj f s p) T acc.
 Proof.
-  intros ns q s p T acc Hq. unfold tok_iri. destruct (str_eqb p rdf_nil_s) eqn:E.
+  intros ns q sup f s p T acc Hq. unfold tok_iri. destruct (str_eqb p rdf_nil_s) eqn:E.
   - apply str_eqb_eq in E. subst p. reflexivity.
   - cbn [andb]. destruct (str_eqb p rdf_type_s) eqn:E2.
     + apply str_eqb_eq in E2. subst p. reflexivity.
-    + destruct (tok_name_names ns q true p Hq) as [->|(w & -> & Hw & _ & H2 & _)]; [reflexivity|].
-      cbn [run]. unfold s_a in H2. now rewrite H2, Hw.
+    + destruct (tok_name_names ns q true p Hq) as [->|(w & -> & Hw & _ & H2 & _ & _ & _ & _ & Hc)]; [reflexivity|].
+      cbn [run]. unfold s_a in H2. now rewrite H2, Hc, Hw.
 Qed.
 
-Lemma run_obj_name : forall env tok u s p T acc, names env tok u ->
-  run env (RObj s p) (tok :: T) acc = run env (RAfter s p) T (acc ++ [(s, p, TIri u)]).
+Lemma run_obj_name : forall env sup tok u f s p T acc, names env tok u ->
+  run env sup (RObj f s p) (tok :: T) acc = run env sup (RAfter f s p) T (acc ++ [(s, p, TIri u)]).
 Proof.
-  intros env tok u s p T acc [->|(w & -> & Hw & _ & _ & H3 & H4 & Hb)]; [reflexivity|]. cbn [run]. now rewrite Hb, H3, H4, Hw.
+  intros env sup tok u f s p T acc [->|(w & -> & Hw & _ & _ & H3 & H4 & Hb & Ho & _)]; [reflexivity|].
+  cbn [run]. now rewrite Hb, Ho, H3, H4, Hw.
 Qed.
 
-Lemma run_dt_name : forall env tok d s p v T acc, names env tok d ->
-  run env (RDt s p v) (tok :: T) acc = run env (RAfter s p) T (acc ++ [(s, p, TLit v None (Some d))]).
+Lemma run_dt_name : forall env sup tok d f s p v T acc, names env tok d ->
+  run env sup (RDt f s p v) (tok :: T) acc = run env sup (RAfter f s p) T (acc ++ [(s, p, TLit v None (Some d))]).
 Proof.
-  intros env tok d s p v T acc [->|(w & -> & Hw & _)]; [reflexivity|]. cbn [run]. now rewrite Hw.
+  intros env sup tok d f s p v T acc [->|(w & -> & Hw & _)]; [reflexivity|]. cbn [run]. now rewrite Hw.
 Qed.
 
-(* the token after a complete object: a comma, a semicolon or the final dot *)
+(* the token after a complete object: a comma, a semicolon, the final dot or the closing bracket *)
 Definition term_start (T : list token) : bool :=
   match T with
   | KComma :: _ => true
-  | KWord w :: _ => str_eqb w s_semi || str_eqb w s_dot
+  | KWord w :: _ => str_eqb w s_semi || str_eqb w s_dot || str_eqb w s_close
   | _ => false
   end.
 
-Lemma run_plain_string : forall env s p v T acc, term_start T = true ->
-  run env (RStr s p v) T acc = run env (RAfter s p) T (acc ++ [(s, p, TLit v None None)]).
+Lemma run_plain_string : forall env sup f s p v T acc, term_start T = true ->
+  run env sup (RStr f s p v) T acc = run env sup (RAfter f s p) T (acc ++ [(s, p, TLit v None None)]).
 Proof.
-  intros env s p v [|tk T] acc H; [discriminate|]. destruct tk as [| w | | | | |]; try discriminate.
-  - cbn [run]. simpl in H. unfold s_semi, s_dot in H. destruct (str_eqb w [59]); [reflexivity|].
-    cbn [orb] in H. now rewrite H.
-  - reflexivity.
+  intros env sup f s p v [|tk T] acc H; [discriminate|]. destruct tk as [| w | | | | |]; try discriminate; reflexivity.
 Qed.
 
 Lemma int_not_bn : forall w, is_int_lex w = true -> bn_word w = None.
@@ -570,15 +619,19 @@ Proof.
   intros [|a [|b l]] H; try reflexivity. cbn [bn_word]. destruct (N.eqb_spec a 95) as [->|]; [|reflexivity].
   discriminate.
 Qed.
-
-Lemma run_term : forall ns q s p t T acc, q_ok ns q = true -> term_ok t = true -> term_start T = true ->
-  run (rev ns) (RObj s p) (tok_term q t ++ T) acc = run (rev ns) (RAfter s p) T (acc ++ [(s, p, t)]).
+Lemma int_not_open : forall w, is_int_lex w = true -> str_eqb w s_open = false.
 Proof.
-  intros ns q s p [u|l|lex lang dt] T acc Hq Hok HT.
+  intros w H. destruct (str_eqb w s_open) eqn:E; [|reflexivity]. apply str_eqb_eq in E. subst w. discriminate.
+Qed.
+
+Lemma run_term : forall ns q sup f s p t T acc, q_ok ns q = true -> term_ok t = true -> term_start T = true ->
+  run (rev ns) sup (RObj f s p) (tok_term q t ++ T) acc = run (rev ns) sup (RAfter f s p) T (acc ++ [(s, p, t)]).
+Proof.
+  intros ns q sup f s p [u|l|lex lang dt] T acc Hq Hok HT.
   - cbn [tok_term app]. now apply run_obj_name, tok_iri_names.
   - reflexivity.
-  - assert (Hquoted : run (rev ns) (RObj s p) (tok_quoted q lex lang dt ++ T) acc
-                      = run (rev ns) (RAfter s p) T (acc ++ [(s, p, TLit lex lang dt)])).
+  - assert (Hquoted : run (rev ns) sup (RObj f s p) (tok_quoted q lex lang dt ++ T) acc
+                      = run (rev ns) sup (RAfter f s p) T (acc ++ [(s, p, TLit lex lang dt)])).
     { unfold tok_quoted. destruct lang as [l|]; destruct dt as [d|]; simpl in Hok; try discriminate.
       - apply andb_true_iff in Hok as [Hne _]. destruct l as [|c l']; [discriminate|]. reflexivity.
       - apply andb_true_iff in Hok as [Hne _]. destruct d as [|c d']; [discriminate|]. cbn [truthy app run].
@@ -588,103 +641,196 @@ Proof.
     assert (Hlang : lang = None) by (destruct lang; [discriminate|reflexivity]). subst lang.
     destruct (str_eqb d xsd_integer_s && is_int_lex lex) eqn:E1.
     + apply andb_true_iff in E1 as [Ed Ei]. apply str_eqb_eq in Ed. subst d. cbn [app run].
-      rewrite (int_not_bn lex Ei). now rewrite Ei.
+      rewrite (int_not_bn lex Ei), (int_not_open lex Ei). now rewrite Ei.
     + destruct (str_eqb d xsd_boolean_s && (str_eqb lex s_true || str_eqb lex s_false)) eqn:E2; [|exact Hquoted].
       apply andb_true_iff in E2 as [Ed Eb]. apply str_eqb_eq in Ed. subst d. cbn [app run].
-      assert (Hni : is_int_lex lex = false /\ bn_word lex = None).
-      { apply orb_true_iff in Eb as [Eb|Eb]; apply str_eqb_eq in Eb; subst lex; split; reflexivity. }
-      destruct Hni as [Hni Hnb]. now rewrite Hnb, Hni, Eb.
+      assert (Hni : is_int_lex lex = false /\ bn_word lex = None /\ str_eqb lex s_open = false).
+      { apply orb_true_iff in Eb as [Eb|Eb]; apply str_eqb_eq in Eb; subst lex; repeat split; reflexivity. }
+      destruct Hni as (Hni & Hnb & Hno). now rewrite Hnb, Hno, Hni, Eb.
 Qed.
 
-Lemma run_after_comma : forall env s p T acc, run env (RAfter s p) (KComma :: T) acc = run env (RObj s p) T acc.
+Lemma run_after_comma : forall env sup f s p T acc,
+  run env sup (RAfter f s p) (KComma :: T) acc = run env sup (RObj f s p) T acc.
 Proof. reflexivity. Qed.
-Lemma run_after_semi : forall env s p T acc, run env (RAfter s p) (KWord s_semi :: T) acc = run env (RPred s) T acc.
+Lemma run_after_semi : forall env sup f s p T acc,
+  run env sup (RAfter f s p) (KWord s_semi :: T) acc = run env sup (RPred f s) T acc.
 Proof. reflexivity. Qed.
-Lemma run_after_dot : forall env s p T acc, run env (RAfter s p) (KWord s_dot :: T) acc = run env RSubj T acc.
+Lemma run_after_dot : forall env sup s p T acc,
+  run env sup (RAfter None s p) (KWord s_dot :: T) acc = run env sup RSubj T acc.
+Proof. reflexivity. Qed.
+Lemma run_after_close : forall env sup os op s p T acc,
+  run env sup (RAfter (Some (os, op)) s p) (KWord s_close :: T) acc = run env sup (RAfter None os op) T acc.
+Proof. reflexivity. Qed.
+Lemma run_pred_close : forall env sup os op s T acc,
+  run env sup (RPred (Some (os, op)) s) (KWord s_close :: T) acc = run env sup (RAfter None os op) T acc.
 Proof. reflexivity. Qed.
 
-Lemma tobj_more_start : forall q r T, term_start T = true -> term_start (flat_map (tobj_more q) r ++ T) = true.
-Proof. intros q [|o r] T H; [exact H|reflexivity]. Qed.
+(* the token that ends a predicate list *)
+Definition is_end (E : token) : Prop := E = KWord s_dot \/ E = KWord s_close.
+Lemma run_after_end : forall env sup f s p p' E T acc, is_end E ->
+  run env sup (RAfter f s p) (E :: T) acc = run env sup (RAfter f s p') (E :: T) acc.
+Proof. intros env sup f s p p' E T acc [->| ->]; reflexivity. Qed.
+Lemma end_start : forall E T, is_end E -> term_start (E :: T) = true.
+Proof. intros E T [->| ->]; reflexivity. Qed.
 
-Lemma run_objs_tail : forall ns q s p os T acc, q_ok ns q = true -> forallb term_ok os = true -> term_start T = true ->
-  run (rev ns) (RAfter s p) (flat_map (tobj_more q) os ++ T) acc
-  = run (rev ns) (RAfter s p) T (acc ++ map (fun o => (s, p, o)) os).
-Proof.
-  intros ns q s p os T acc Hq. revert acc. induction os as [|o r IH]; intros acc Hok HT.
-  - cbn [flat_map map app]. now rewrite app_nil_r.
-  - simpl in Hok. apply andb_true_iff in Hok as [Ho Hr].
-    cbn [flat_map]. unfold tobj_more at 1. rewrite <- ?app_assoc. cbn [app]. rewrite run_after_comma.
-    rewrite <- ?app_assoc.
-    rewrite (run_term ns) by (try assumption; now apply tobj_more_start). rewrite IH by assumption.
-    cbn [map]. rewrite <- ?app_assoc; reflexivity.
-Qed.
+Lemma flat_map_single : forall (A B : Type) (g : A -> B) l, flat_map (fun o => [g o]) l = map g l.
+Proof. intros A B g l. induction l as [|x r IH]; [reflexivity|]. cbn [flat_map map app]. now rewrite IH. Qed.
 
-Lemma run_objs : forall ns q s p os T acc, q_ok ns q = true -> forallb term_ok os = true -> os <> [] ->
-  term_start T = true ->
-  run (rev ns) (RObj s p) (toks_objs q os ++ T) acc
-  = run (rev ns) (RAfter s p) T (acc ++ map (fun o => (s, p, o)) os).
-Proof.
-  intros ns q s p [|o r] T acc Hq Hok Hne HT; [congruence|].
-  simpl in Hok. apply andb_true_iff in Hok as [Ho Hr].
-  cbn [toks_objs]. rewrite <- ?app_assoc.
-  rewrite (run_term ns) by (try assumption; now apply tobj_more_start).
-  rewrite (run_objs_tail ns) by assumption. cbn [map]. rewrite <- ?app_assoc; reflexivity.
-Qed.
+(* one layer of object / predicate lists, for any kind of object whose reading is known:
+   [spf t] are the labels the reader draws for the object t, [trp s p t] the triples it yields *)
+Section RunLayer.
+  Variables (ns : nstab) (q : qtab) (tt : tterm -> list token) (okp : tterm -> bool) (f : frame).
+  Variable spf : tterm -> list str.
+  Variable trp : tterm -> str -> tterm -> list ttriple.
+  Hypothesis Hq : q_ok ns q = true.
+  Hypothesis Hrun : forall s p t T acc sup, okp t = true -> term_start T = true ->
+    run (rev ns) (spf t ++ sup) (RObj f s p) (tt t ++ T) acc = run (rev ns) sup (RAfter f s p) T (acc ++ trp s p t).
 
-Definition po_triples (s : tterm) (ps : list (str * list tterm)) : list ttriple :=
-  flat_map (fun po => map (fun o => (s, fst po, o)) (snd po)) ps.
+  Definition po_trs (s : tterm) (ps : list (str * list tterm)) : list ttriple :=
+    flat_map (fun po => flat_map (trp s (fst po)) (snd po)) ps.
+  Definition po_sup (ps : list (str * list tterm)) : list str :=
+    flat_map (fun po => flat_map spf (snd po)) ps.
 
-Lemma tpred_more_start : forall q r T, term_start (flat_map (tpred_more q) r ++ KWord s_dot :: T) = true.
-Proof. intros q [|o r] T; reflexivity. Qed.
+  Lemma tobj_more_start : forall r T, term_start T = true -> term_start (flat_map (tobj_more tt) r ++ T) = true.
+  Proof. intros [|o r] T H; [exact H|reflexivity]. Qed.
 
-Lemma run_preds_tail : forall ns q s p0 ps T acc, q_ok ns q = true -> forallb po_ok ps = true ->
-  run (rev ns) (RAfter s p0) (flat_map (tpred_more q) ps ++ KWord s_dot :: T) acc
-  = run (rev ns) RSubj T (acc ++ po_triples s ps).
-Proof.
-  intros ns q s p0 ps T acc Hq. revert p0 acc. induction ps as [|[p os] r IH]; intros p0 acc Hok.
-  - cbn [flat_map app po_triples]. rewrite run_after_dot. now rewrite app_nil_r.
-  - simpl in Hok. apply andb_true_iff in Hok as [Hpo Hr].
-    unfold po_ok in Hpo. cbn [fst snd] in Hpo. apply andb_true_iff in Hpo as [Hpo Hts]. apply andb_true_iff in Hpo as [Hp Hne].
+  Lemma run_objs_tail : forall s p os T acc sup, forallb okp os = true -> term_start T = true ->
+    run (rev ns) (flat_map spf os ++ sup) (RAfter f s p) (flat_map (tobj_more tt) os ++ T) acc
+    = run (rev ns) sup (RAfter f s p) T (acc ++ flat_map (trp s p) os).
+  Proof.
+    intros s p os T acc sup. revert acc. induction os as [|o r IH]; intros acc Hok HT.
+    - cbn [flat_map app]. now rewrite app_nil_r.
+    - simpl in Hok. apply andb_true_iff in Hok as [Ho Hr].
+      cbn [flat_map]. unfold tobj_more at 1. rewrite <- ?app_assoc. cbn [app]. rewrite run_after_comma.
+      rewrite Hrun by (try assumption; now apply tobj_more_start). rewrite IH by assumption.
+      rewrite <- ?app_assoc; reflexivity.
+  Qed.
+
+  Lemma run_objs : forall s p os T acc sup, forallb okp os = true -> os <> [] -> term_start T = true ->
+    run (rev ns) (flat_map spf os ++ sup) (RObj f s p) (toks_objs tt os ++ T) acc
+    = run (rev ns) sup (RAfter f s p) T (acc ++ flat_map (trp s p) os).
+  Proof.
+    intros s p [|o r] T acc sup Hok Hne HT; [congruence|].
+    simpl in Hok. apply andb_true_iff in Hok as [Ho Hr].
+    cbn [toks_objs flat_map]. rewrite <- ?app_assoc.
+    rewrite Hrun by (try assumption; now apply tobj_more_start).
+    rewrite run_objs_tail by assumption. rewrite <- ?app_assoc; reflexivity.
+  Qed.
+
+  Lemma tpred_more_start : forall r E T, is_end E -> term_start (flat_map (tpred_more q tt) r ++ E :: T) = true.
+  Proof. intros [|o r] E T H; [now apply end_start|reflexivity]. Qed.
+
+  Lemma run_preds_tail : forall s p0 ps E T acc sup, is_end E -> forallb (po_okg okp) ps = true ->
+    run (rev ns) (po_sup ps ++ sup) (RAfter f s p0) (flat_map (tpred_more q tt) ps ++ E :: T) acc
+    = run (rev ns) sup (RAfter f s p0) (E :: T) (acc ++ po_trs s ps).
+  Proof.
+    intros s p0 ps E T acc sup HE. revert p0 acc. induction ps as [|[p os] r IH]; intros p0 acc Hok.
+    - cbn [flat_map app po_trs po_sup]. now rewrite app_nil_r.
+    - simpl in Hok. apply andb_true_iff in Hok as [Hpo Hr].
+      unfold po_okg in Hpo. cbn [fst snd] in Hpo. apply andb_true_iff in Hpo as [Hpo Hts]. apply andb_true_iff in Hpo as [Hp Hne].
+      assert (Hos : os <> []) by (destruct os; [discriminate|congruence]).
+      unfold po_sup, po_trs. cbn [flat_map]. fold (po_sup r). fold (po_trs s r).
+      unfold tpred_more at 1. cbn [fst snd]. rewrite <- ?app_assoc. cbn [app]. rewrite run_after_semi.
+      rewrite (run_pred ns) by exact Hq. rewrite <- ?app_assoc.
+      rewrite run_objs by (try assumption; now apply tpred_more_start).
+      rewrite IH by assumption. rewrite <- ?app_assoc. now apply run_after_end.
+  Qed.
+
+  Lemma run_preds : forall s ps E T acc sup, is_end E -> ps <> [] -> forallb (po_okg okp) ps = true ->
+    exists p0, run (rev ns) (po_sup ps ++ sup) (RPred f s) (toks_preds q tt ps ++ E :: T) acc
+    = run (rev ns) sup (RAfter f s p0) (E :: T) (acc ++ po_trs s ps).
+  Proof.
+    intros s [|[p os] r] E T acc sup HE Hne Hok; [congruence|]. exists p.
+    simpl in Hok. apply andb_true_iff in Hok as [Hpo Hr].
+    unfold po_okg in Hpo. cbn [fst snd] in Hpo. apply andb_true_iff in Hpo as [Hpo Hts]. apply andb_true_iff in Hpo as [Hp Hne'].
     assert (Hos : os <> []) by (destruct os; [discriminate|congruence]).
-    cbn [flat_map]. unfold tpred_more at 1. cbn [fst snd]. rewrite <- ?app_assoc. cbn [app]. rewrite run_after_semi.
+    unfold po_sup, po_trs. cbn [flat_map toks_preds]. fold (po_sup r). fold (po_trs s r). cbn [fst snd].
+    rewrite <- ?app_assoc. cbn [app].
     rewrite (run_pred ns) by exact Hq. rewrite <- ?app_assoc.
-    rewrite (run_objs ns) by (try assumption; apply tpred_more_start).
-    rewrite IH by assumption. unfold po_triples. cbn [flat_map fst snd]. rewrite <- ?app_assoc; reflexivity.
+    rewrite run_objs by (try assumption; now apply tpred_more_start).
+    rewrite run_preds_tail by assumption. rewrite <- ?app_assoc. reflexivity.
+  Qed.
+End RunLayer.
+
+(* the inner layer: plain terms, no label drawn *)
+Definition sp_none (_ : tterm) : list str := [].
+Definition trp_one (s : tterm) (p : str) (t : tterm) : list ttriple := [(s, p, t)].
+
+Lemma run_term_inner : forall ns q f, q_ok ns q = true -> forall s p t T acc sup, term_ok t = true -> term_start T = true ->
+  run (rev ns) (sp_none t ++ sup) (RObj f s p) (tok_term q t ++ T) acc
+  = run (rev ns) sup (RAfter f s p) T (acc ++ trp_one s p t).
+Proof. intros ns q f Hq s p t T acc sup Ht HT. unfold sp_none, trp_one. cbn [app]. now apply run_term. Qed.
+
+Lemma po_sup_none : forall ps, po_sup sp_none ps = [].
+Proof.
+  induction ps as [|[p os] r IH]; [reflexivity|]. unfold po_sup. cbn [flat_map snd]. fold (po_sup sp_none r). rewrite IH, app_nil_r.
+  induction os as [|o os' IHo]; [reflexivity|exact IHo].
+Qed.
+Lemma po_trs_one : forall s ps, po_trs trp_one s ps = po_triples s ps.
+Proof.
+  intros s ps. induction ps as [|[p os] r IH]; [reflexivity|]. unfold po_trs, po_triples. cbn [flat_map fst snd].
+  fold (po_trs trp_one s r). fold (po_triples s r). rewrite IH.
+  assert (H : flat_map (trp_one s p) os = map (fun o => (s, p, o)) os) by (unfold trp_one; apply flat_map_single).
+  now rewrite H.
 Qed.
 
-Lemma run_stmt : forall ns q sp T acc, q_ok ns q = true -> sp_ok sp = true ->
-  run (rev ns) RSubj (toks_stmt q sp ++ T) acc = run (rev ns) RSubj T (acc ++ po_triples (fst sp) (snd sp)).
+Lemma run_open : forall env l sup s p T acc,
+  run env (l :: sup) (RObj None s p) (KWord s_open :: T) acc
+  = run env sup (RPred (Some (s, p)) (TBn l)) T (acc ++ [(s, p, TBn l)]).
+Proof. reflexivity. Qed.
+
+(* the outer layer: an object may be a bracketed node *)
+Lemma run_term_outer : forall ns q n, q_ok ns q = true -> forall s p t T acc sup, okp_outer n t = true -> term_start T = true ->
+  run (rev ns) (obj_sup n t ++ sup) (RObj None s p) (tt_outer q n t ++ T) acc
+  = run (rev ns) sup (RAfter None s p) T (acc ++ obj_triples n s p t).
 Proof.
-  intros ns q [s ps] T acc Hq Hok. unfold sp_ok in Hok. cbn [fst snd] in *.
+  intros ns q n Hq s p t T acc sup Hok HT. unfold tt_outer, obj_sup, obj_triples, okp_outer in *.
+  destruct t as [u|l|lex lang dt]; try (cbn [app]; now apply run_term).
+  destruct (nlookup n l) as [ps|]; [|cbn [app]; now apply run_term].
+  cbn [app]. rewrite run_open. rewrite <- ?app_assoc. cbn [app].
+  destruct ps as [|po r].
+  - cbn [toks_preds app]. rewrite run_pred_close. reflexivity.
+  - destruct (run_preds ns q (tok_term q) term_ok (Some (s, p)) sp_none trp_one Hq (run_term_inner ns q (Some (s, p)) Hq)
+               (TBn l) (po :: r) (KWord s_close) T (acc ++ [(s, p, TBn l)]) sup) as [p0 H];
+      [now right|discriminate|exact Hok|].
+    rewrite po_sup_none in H. cbn [app] in H. rewrite H. rewrite run_after_close. rewrite po_trs_one.
+    rewrite <- ?app_assoc. reflexivity.
+Qed.
+
+Lemma run_stmt : forall ns q n sp T acc sup, q_ok ns q = true -> sp_ok n sp = true ->
+  run (rev ns) (po_sup (obj_sup n) (snd sp) ++ sup) RSubj (toks_stmt q n sp ++ T) acc
+  = run (rev ns) sup RSubj T (acc ++ po_trs (obj_triples n) (fst sp) (snd sp)).
+Proof.
+  intros ns q n [s ps] T acc sup Hq Hok. unfold sp_ok in Hok. cbn [fst snd] in *.
   apply andb_true_iff in Hok as [Hok Hps]. apply andb_true_iff in Hok as [Hs Hne].
-  destruct ps as [|[p os] r]; [discriminate|].
-  simpl in Hps. apply andb_true_iff in Hps as [Hpo Hr].
-  unfold po_ok in Hpo. cbn [fst snd] in Hpo. apply andb_true_iff in Hpo as [Hpo Hts]. apply andb_true_iff in Hpo as [Hp Hne'].
-  assert (Hos : os <> []) by (destruct os; [discriminate|congruence]).
-  unfold toks_stmt. cbn [fst snd toks_preds].
-  assert (Hsub : forall T', run (rev ns) RSubj (tok_term q s ++ T') acc = run (rev ns) (RPred s) T' acc).
-  { intros T'. destruct s as [u|l|lex lang dt]; [|reflexivity|discriminate].
+  assert (Hps' : ps <> []) by (destruct ps; [discriminate|congruence]).
+  unfold toks_stmt. cbn [fst snd].
+  assert (Hsub : forall T' sup', run (rev ns) sup' RSubj (tok_term q s ++ T') acc = run (rev ns) sup' (RPred None s) T' acc).
+  { intros T' sup'. destruct s as [u|l|lex lang dt]; [|reflexivity|discriminate].
     cbn [tok_term app]. now apply run_subj, tok_iri_names. }
   rewrite <- ?app_assoc. rewrite Hsub. cbn [app].
-  rewrite (run_pred ns) by exact Hq. rewrite <- ?app_assoc. cbn [app].
-  rewrite (run_objs ns) by (try assumption; apply tpred_more_start).
-  rewrite (run_preds_tail ns) by assumption. unfold po_triples. cbn [flat_map fst snd]. rewrite <- ?app_assoc; reflexivity.
+  destruct (run_preds ns q (tt_outer q n) (okp_outer n) None (obj_sup n) (obj_triples n) Hq (run_term_outer ns q n Hq)
+             s ps (KWord s_dot) T acc sup) as [p0 H]; [now left|exact Hps'|exact Hps|].
+  rewrite H. now rewrite run_after_dot.
 Qed.
 
-Lemma run_stmts : forall ns q pl acc, q_ok ns q = true -> plan_ok pl = true ->
-  run (rev ns) RSubj (flat_map (toks_stmt q) pl) acc = Some (acc ++ plan_triples pl).
+Lemma run_stmts : forall ns q n pl acc, q_ok ns q = true -> plan_ok n pl = true ->
+  run (rev ns) (plan_sup n pl) RSubj (flat_map (toks_stmt q n) pl) acc = Some (acc ++ plan_triples n pl).
 Proof.
-  intros ns q pl acc Hq. revert acc. induction pl as [|sp r IH]; intros acc Hok.
+  intros ns q n pl acc Hq. revert acc. induction pl as [|sp r IH]; intros acc Hok.
   - cbn. now rewrite app_nil_r.
-  - simpl in Hok. apply andb_true_iff in Hok as [H1 H2]. cbn [flat_map].
-    rewrite (run_stmt ns) by assumption. rewrite IH by assumption.
-    unfold plan_triples. cbn [flat_map]. unfold po_triples. rewrite <- ?app_assoc; reflexivity.
+  - simpl in Hok. apply andb_true_iff in Hok as [H1 H2].
+    unfold plan_sup, plan_triples. cbn [flat_map]. fold (plan_sup n r). fold (plan_triples n r).
+    change (flat_map (fun po => flat_map (obj_sup n) (snd po)) (snd sp)) with (po_sup (obj_sup n) (snd sp)).
+    change (flat_map (fun po => flat_map (obj_triples n (fst sp) (fst po)) (snd po)) (snd sp))
+      with (po_trs (obj_triples n) (fst sp) (snd sp)).
+    rewrite (run_stmt ns) by assumption. rewrite IH by assumption. rewrite <- ?app_assoc; reflexivity.
 Qed.
 
-Lemma run_header : forall ns env T acc, ns_ok ns = true ->
-  run env RSubj (toks_header ns ++ T) acc = run (rev ns ++ env) RSubj T acc.
+Lemma run_header : forall ns env sup T acc, ns_ok ns = true ->
+  run env sup RSubj (toks_header ns ++ T) acc = run (rev ns ++ env) sup RSubj T acc.
 Proof.
-  induction ns as [|[p n] r IH]; intros env T acc Hok; [reflexivity|].
+  induction ns as [|[p n] r IH]; intros env sup T acc Hok; [reflexivity|].
   simpl in Hok. apply andb_true_iff in Hok as [Hpn Hr]. apply andb_true_iff in Hpn as [Hp Hn].
   unfold toks_header. cbn [flat_map]. fold (toks_header r). unfold tprefix_line. cbn [fst snd app run].
   change (str_eqb s_prefix_word s_prefix_word) with true. cbv iota.
@@ -721,37 +867,52 @@ Proof.
     destruct (str_eqb d xsd_integer_s && is_int_lex lex); [reflexivity|].
     destruct (str_eqb d xsd_boolean_s && (str_eqb lex s_true || str_eqb lex s_false)); [reflexivity|exact Hq].
 Qed.
-Lemma toks_objs_nb : forall q os, forallb not_bad (toks_objs q os) = true.
+Section NbLayer.
+  Variables (q : qtab) (tt : tterm -> list token).
+  Hypothesis Htt : forall t, forallb not_bad (tt t) = true.
+  Lemma toks_objs_nb : forall os, forallb not_bad (toks_objs tt os) = true.
+  Proof.
+    intros [|o r]; [reflexivity|]. cbn [toks_objs]. rewrite forallb_app, Htt. cbn [andb].
+    apply forallb_flat_map. intros x. unfold tobj_more. cbn [forallb not_bad andb]. apply Htt.
+  Qed.
+  Lemma toks_preds_nb : forall ps, forallb not_bad (toks_preds q tt ps) = true.
+  Proof.
+    intros [|[p os] r]; [reflexivity|]. cbn [toks_preds forallb]. rewrite tok_iri_nb. cbn [andb].
+    rewrite forallb_app, toks_objs_nb. cbn [andb]. apply forallb_flat_map. intros [p' os'].
+    unfold tpred_more. cbn [fst snd forallb not_bad andb]. rewrite tok_iri_nb. apply toks_objs_nb.
+  Qed.
+End NbLayer.
+Lemma tt_outer_nb : forall q n t, forallb not_bad (tt_outer q n t) = true.
 Proof.
-  intros q [|o r]; [reflexivity|]. cbn [toks_objs]. rewrite forallb_app, tok_term_nb. cbn [andb].
-  apply forallb_flat_map. intros x. unfold tobj_more. cbn [forallb not_bad andb]. apply tok_term_nb.
+  intros q n t. unfold tt_outer. destruct t as [u|l|lex lang dt]; try apply tok_term_nb.
+  destruct (nlookup n l) as [ps|]; [|apply tok_term_nb].
+  cbn [forallb not_bad andb]. rewrite forallb_app. rewrite (toks_preds_nb q (tok_term q) (tok_term_nb q)). reflexivity.
 Qed.
-Lemma toks_stmt_nb : forall q sp, forallb not_bad (toks_stmt q sp) = true.
+Lemma toks_stmt_nb : forall q n sp, forallb not_bad (toks_stmt q n sp) = true.
 Proof.
-  intros q [s ps]. unfold toks_stmt. cbn [fst snd]. rewrite forallb_app, tok_term_nb. cbn [andb].
-  rewrite forallb_app. cbn [forallb not_bad andb]. rewrite andb_true_r.
-  destruct ps as [|[p os] r]; [reflexivity|]. cbn [toks_preds forallb]. rewrite tok_iri_nb. cbn [andb].
-  rewrite forallb_app, toks_objs_nb. cbn [andb]. apply forallb_flat_map. intros [p' os'].
-  unfold tpred_more. cbn [fst snd forallb not_bad andb]. rewrite tok_iri_nb. apply toks_objs_nb.
+  intros q n [s ps]. unfold toks_stmt. cbn [fst snd]. rewrite forallb_app, tok_term_nb. cbn [andb].
+  rewrite forallb_app. rewrite (toks_preds_nb q (tt_outer q n) (tt_outer_nb q n)). reflexivity.
 Qed.
-Lemma toks_doc_nb : forall ns q pl,
-  existsb (fun t => match t with KBad => true | _ => false end) (toks_doc ns q pl) = false.
+Lemma toks_doc_nb : forall ns q n pl,
+  existsb (fun t => match t with KBad => true | _ => false end) (toks_doc ns q n pl) = false.
 Proof.
-  intros ns q pl.
-  assert (H : forallb not_bad (toks_doc ns q pl) = true).
+  intros ns q n pl.
+  assert (H : forallb not_bad (toks_doc ns q n pl) = true).
   { unfold toks_doc. rewrite forallb_app. apply andb_true_iff. split.
     - unfold toks_header. apply forallb_flat_map. reflexivity.
     - apply forallb_flat_map. apply toks_stmt_nb. }
-  induction (toks_doc ns q pl) as [|t r IH]; [reflexivity|]. simpl in H. apply andb_true_iff in H as [H1 H2].
+  induction (toks_doc ns q n pl) as [|t r IH]; [reflexivity|]. simpl in H. apply andb_true_iff in H as [H1 H2].
   cbn [existsb]. rewrite (IH H2). destruct t; try reflexivity. discriminate.
 Qed.
 
-Theorem read_write_doc : forall ns q pl, ns_ok ns = true -> q_ok ns q = true -> plan_ok pl = true ->
-  read_doc (write_doc ns q pl) = Some (plan_triples pl).
+(* the reader draws the labels of the bracketed nodes from its supply; with the supply that hands out the
+   labels the plan records, in the order of the opening brackets, the text reads back as the plan's triples *)
+Theorem read_write_doc : forall ns q n pl, ns_ok ns = true -> q_ok ns q = true -> plan_ok n pl = true ->
+  read_doc (plan_sup n pl) (write_doc ns q n pl) = Some (plan_triples n pl).
 Proof.
-  intros ns q pl H1 H2 H3. unfold read_doc. rewrite lex_doc by assumption. rewrite toks_doc_nb.
+  intros ns q n pl H1 H2 H3. unfold read_doc. rewrite lex_doc by assumption. rewrite toks_doc_nb.
   unfold toks_doc. rewrite run_header by exact H1. rewrite app_nil_r.
-  now rewrite (run_stmts ns q pl []) by assumption.
+  now rewrite (run_stmts ns q n pl []) by assumption.
 Qed.
 
 (* as sets: the text denotes exactly the graph, whenever the plan covers the graph *)
@@ -763,7 +924,8 @@ Proof.
   induction l as [|[[s p] o] l IH]; [reflexivity|]. simpl. now rewrite !Ht, str_eqb_refl, IH.
 Qed.
 
-Theorem ts_spec_model : forall c, ts_wf c = true -> tset_eqb (plan_triples (ts_plan c)) (ts_g c) = true ->
+Theorem ts_spec_model : forall c, ts_wf c = true ->
+  tset_eqb (plan_triples (ts_nest c) (ts_plan c)) (ts_g c) = true ->
   ts_spec c (ts_model c) = true.
 Proof.
   intros c Hwf Hset. unfold ts_wf in Hwf. apply andb_true_iff in Hwf as [Hwf H3]. apply andb_true_iff in Hwf as [H1 H2].
